@@ -275,13 +275,20 @@ Definition agree78 (r : res unit) (o : int) : bool :=
   | _ => false      (* the models never predict a panic for JSON-decoded input *)
   end.
 
-Record case7 := mkcase7 { c7_id : int; c7_in : vp_input (bjj_bundle DT SigT); c7_env : env; c7_obs : int }.
-Definition c7 (id : int) (found claim binding : bool) (b : option (bjj_bundle DT SigT)) (E : env) (o : int) : case7 :=
-  mkcase7 id (mkvp found claim binding b) E o.
+(* a case carries the credential's WHOLE proof list, in order; pe = one entry:
+   (type is the requested one?, core claim decodes, binding holds, typed proof) *)
+Definition pe {B} (istype claim binding : bool) (b : option B) : bool * vp_input B :=
+  (istype, mkvp istype claim binding b).
 
-Record case8 := mkcase8 { c8_id : int; c8_in : vp_input (smt_bundle DT); c8_env : env; c8_obs : int }.
-Definition c8 (id : int) (found claim binding : bool) (b : option (smt_bundle DT)) (E : env) (o : int) : case8 :=
-  mkcase8 id (mkvp found claim binding b) E o.
+Record case7 := mkcase7 { c7_id : int; c7_ps : list (bool * vp_input (bjj_bundle DT SigT)); c7_env : env; c7_obs : int }.
+Definition c7 (id : int) (ps : list (bool * vp_input (bjj_bundle DT SigT))) (E : env) (o : int) : case7 :=
+  mkcase7 id ps E o.
+Definition c7_in (c : case7) := select_proof (c7_ps c).
+
+Record case8 := mkcase8 { c8_id : int; c8_ps : list (bool * vp_input (smt_bundle DT)); c8_env : env; c8_obs : int }.
+Definition c8 (id : int) (ps : list (bool * vp_input (smt_bundle DT))) (E : env) (o : int) : case8 :=
+  mkcase8 id ps E o.
+Definition c8_in (c : case8) := select_proof (c8_ps c).
 
 Definition run7 (T : tables) (E : env) (i : vp_input (bjj_bundle DT SigT)) : res unit :=
   verify_proof_top
